@@ -3,6 +3,7 @@
 import json, sys, os, glob, time
 
 prop, tier, seed, t0, pieces, verif = sys.argv[1], sys.argv[2], int(sys.argv[3]), float(sys.argv[4]), sys.argv[5], sys.argv[6]
+out = sys.argv[7] if len(sys.argv) > 7 else verif
 known = []
 try:
     for line in open(os.path.join(verif, "KNOWN_FINDINGS.txt")):
@@ -94,7 +95,7 @@ ev = {
 }
 if prop == "C09":
     # the world-simulator half of C09 wrote the evidence file first: extend it
-    path = os.path.join(verif, "evidence", "C09.json")
+    path = os.path.join(out, "evidence", "C09.json")
     try:
         base = json.load(open(path))
         base["coverage"]["thread_engine"] = ev["coverage"]
@@ -105,6 +106,6 @@ if prop == "C09":
         ev = base
     except Exception:
         pass
-json.dump(ev, open(os.path.join(verif, "evidence", prop + ".json"), "w"), indent=1)
+json.dump(ev, open(os.path.join(out, "evidence", prop + ".json"), "w"), indent=1)
 print("%s %s (shuttle engine): %d iterations in %d processes, %d distinct interleavings, %d violations, %.1fs" % (prop, tier, iters, len(ps), distinct, printed, wall))
 sys.exit(rc)
